@@ -1,6 +1,6 @@
 #!/bin/bash
 # quietness: several VERIF_SEEDs of every quick check on the unchanged tree; prints only what needs attention
-cd /verif
+cd "$(dirname "$(readlink -f "$0")")"
 for s in "$@"; do for p in C07 C08 C09 C12 C14 C16; do
   out=$(VERIF_SEED=$s VERIF_NO_EVIDENCE=1 ./vcheck run $p --tier quick 2>&1); rc=$?
   echo "seed=$s $p rc=$rc $(echo "$out" | grep -c '^KNOWN-FINDING') known; $(echo "$out" | grep 'evidence written')"
